@@ -2,6 +2,5 @@ package main
 
 import "encoding/json"
 
-func runFault(idx int, raw json.RawMessage, seed int64) map[string]any { return map[string]any{} }
 func runWS(idx int, raw json.RawMessage, seed int64) map[string]any    { return map[string]any{} }
 func runDrain(idx int, raw json.RawMessage, seed int64) map[string]any { return map[string]any{} }
